@@ -46,7 +46,9 @@ func (x *runner) flush() {
 
 var sgrVocab = []string{"0", "1", "2", "3", "4", "5", "7", "8", "9", "22", "23", "24", "25", "27", "28", "29",
 	"31", "32", "39", "41", "44", "49", "91", "104", "38;5;100", "48;5;17", "38;2;1;2;3", "48;2;200;100;50",
-	"38:5:9", "48:2:9:8:7", "4:3", "4:0", "58:5:3", "59", "1;31;42", ""}
+	"38:5:9", "48:2:9:8:7", "4:3", "4:0", "58:5:3", "59", "1;31;42", "",
+	// outside the judged vocabulary (terminal specific): the driver re-synchronises
+	"6", "21", "38;5;300"}
 
 func randomOp(r *gen.Rng, w, h int) string {
 	par := func(size int) string {
